@@ -1267,6 +1267,37 @@ def main():
         ctx.note("seen", {"pairs": sorted(seen["pairs"]), "orders": sorted(seen["orders"]), "styles": sorted(seen["styles"]),
                           "counts": {k: v for k, v in seen.items() if isinstance(v, int)}})
         ctx.note("distinct", len(ctx._distinct))
+    # ================================================================ a function given by its projections onto ANOTHER dual space
+    # (P1 function, projections onto DP0, on the tetrahedron, where both spaces have 4 dofs and the mixed mass matrix is
+    # invertible): its functionals are still those of the function it represents
+    cid = "G:tetra:P1:projections_onto_DP0"
+    if ctx.want(cid) and not san and mine("P1"):
+        with ctx.guard(cid, "grid_function:P1"):
+            rngt = ctx.rng(cid)
+            mt_ = M.distort(M.tetrahedron(), rngt)
+            gt_ = M.to_grid(mt_)
+            p1t, dp0t = api.function_space(gt_, "P", 1), api.function_space(gt_, "DP", 0)
+            part = O.params(api, 4, 4)
+            Mmix = O.dense(sparse.identity(p1t, p1t, dp0t, parameters=part))      # <chi_i, phi_j>
+            M11 = O.dense(sparse.identity(p1t, p1t, p1t, parameters=part))
+            for cplx in (False, True):
+                c = rngt.normal(size=4) + (1j * rngt.normal(size=4) if cplx else 0.0)
+                for scale_ in (1.0, 2.0):
+                    gfp = api.GridFunction(p1t, projections=Mmix @ c, dual_space=dp0t, parameters=part)
+                    if scale_ != 1.0:
+                        gfp = scale_ * gfp
+                    want_norm = scale_ * float(np.sqrt(abs(np.conj(c) @ (M11 @ c))))
+                    got_norm = float(gfp.l2_norm())
+                    d1 = abs(got_norm - want_norm) / want_norm
+                    d2 = rel(np.asarray(gfp.coefficients), scale_ * c)
+                    d3 = rel(np.asarray(gfp.projections(p1t)), scale_ * (M11 @ c))
+                    wmax("projections_onto_other_dual", max(d1, d2, d3))
+                    ctx.case("%s:%s:x%g" % (cid, "complex" if cplx else "real", scale_), {"mesh": "tetra", "op": "grid function from projections onto another dual space",
+                                                                                          "complex": cplx, "scale": scale_, "l2_norm_dev": d1, "coefficients_dev": d2, "projections_dev": d3})
+                    if not (max(d1, d2, d3) <= 1e-11):
+                        ctx.violation("grid_function:from_projections_onto_other_dual", "%s: l2_norm / coefficients / projections(own space) deviate by %.3e / %.3e / %.3e from the function the projections define"
+                                      % (cid, d1, d2, d3), cid)
+        drain(cid)
     ctx.note("worst_rel_dev", worst)
     ctx.note("launch_recorder", rec.summary())
     ctx.note("pairs_compared_at_exact_orders", sorted("%sx%s" % p for p in seen["pairs"]))
